@@ -1,7 +1,7 @@
 """C04 rate limiting - see DESIGN.md section 4 (C04)."""
 import ast
 
-from .common import (Ctx, Finding, Result, need, term, P, TRUSTED_LOGGING, LA, action_config_reads,
+from .common import (call_arg, Ctx, Finding, Result, need, term, P, TRUSTED_LOGGING, LA, action_config_reads,
                      action_config_writers, trace_worker)
 from .c03 import table_rule
 from ..index import norm
@@ -88,6 +88,46 @@ COPY_SHALLOW = {"copy.copy"}
 STATEFUL = ("deep.api.tracepoint.trigger.Trigger", LA, STATS)
 
 
+
+def stats_members(ctx):
+    """The members of the fire statistics by what they do, not by name: the advancing method (adds one to a counter field
+    and stores its timestamp argument in another), the two fields, and the accessors answering them."""
+    p, t = ctx.prog, ctx.types
+    st = p.cls(STATS)
+    cands = []
+    for lst in st.methods.values():
+        for m in lst:
+            if m.name == "__init__":
+                continue
+            incs = [a for a in t.nodes_in(m, ast.AugAssign) if isinstance(a.op, ast.Add) and isinstance(a.target, ast.Attribute)
+                    and isinstance(a.target.value, ast.Name) and a.target.value.id == "self"]
+            if incs:
+                cands.append((m, incs))
+    byname = p.functions.get(STATS + ".fire")
+    if not (len(cands) == 1 and len(cands[0][1]) == 1):
+        # not recognisable by shape: go by the names of the pinned tree (the rules then report what is wrong with it)
+        need(byname is not None, "TracepointExecutionStats: the advancing method (counter += ...) was not found exactly once")
+        return {"fire": byname, "cnt_field": "_fire_count", "last_field": "_last_fire", "cnt": "fire_count", "last": "last_fire"}
+    fire, incs = cands[0]
+    cnt = incs[0].target.attr
+    lasts = [a for a in t.nodes_in(fire, ast.Assign) if isinstance(a.targets[0], ast.Attribute) and isinstance(a.targets[0].value, ast.Name)
+             and a.targets[0].value.id == "self" and isinstance(a.value, ast.Name) and a.value.id in fire.params[1:]]
+    if len(lasts) != 1:
+        need(byname is not None, "TracepointExecutionStats.%s: store of the timestamp not found" % fire.name)
+        return {"fire": byname, "cnt_field": "_fire_count", "last_field": "_last_fire", "cnt": "fire_count", "last": "last_fire"}
+    last = lasts[0].targets[0].attr
+
+    def accessor(field):
+        out = []
+        for lst in st.methods.values():
+            for m in lst:
+                rets = [r for r in t.nodes_in(m, ast.Return) if r.value is not None]
+                if m.name != "__init__" and len(rets) == 1 and norm(rets[0].value) == "self." + field:
+                    out.append(m.name)
+        need(len(out) == 1, "TracepointExecutionStats: accessor of %s not found" % field)
+        return out[0]
+    return {"fire": fire, "cnt_field": cnt, "last_field": last, "cnt": accessor(cnt), "last": accessor(last)}
+
 def _type_mentions(ctx, tys, classes, deep=True, depth=0):
     """Does a type term (or, when deep, anything nested in it) denote an instance of one of the classes?"""
     p = ctx.prog
@@ -129,7 +169,7 @@ def identity_rule(ctx: Ctx, res: Result, RID: str):
         if cq != STATS:
             continue
         for sf, v, _ in lst:
-            if sf.cls is st and sf.name in ("__init__", "fire"):
+            if sf.cls is st and sf.name in ("__init__", stats_members(ctx)["fire"].name):
                 res.ok(RID)
             else:
                 res.fail(Finding(RID, sf.qname, paths.stmt_of(p, v) if v is not None else attr, sf.loc(v) if v is not None else sf.loc(),
@@ -282,13 +322,14 @@ def run(ctx: Ctx, tier: str) -> Result:
     tb = Table(ctx, fi)
     ts = fi.params[1]
     FC = term(ctx, fi, "self.fire_count")
-    FIRED = term(ctx, fi, "self.__stats.fire_count")
-    LAST = term(ctx, fi, "self.__stats.last_fire")
+    SM = stats_members(ctx)
+    FIRED = term(ctx, fi, "self.__stats.%s" % SM["cnt"])
+    LAST = term(ctx, fi, "self.__stats.%s" % SM["last"])
     winq = [k for k in tb.vars.truths if ".in_window(" in k]
     if len(winq) != 1:
         res.fail(Finding("C04.TABLE", fi.qname, "<window test>", fi.loc(), "can_trigger consults the time window %d times (expected once): a tracepoint fires outside its configured window" % len(winq)))
     WINQ = winq[0] if winq else "<in window>"
-    ELAPSED = term(ctx, fi, "%s - self.__stats.last_fire" % ts)
+    ELAPSED = term(ctx, fi, "%s - self.__stats.%s" % (ts, SM["last"]))
     partners = [b if a == ELAPSED else a for (a, b) in tb.vars.rels if ELAPSED in (a, b)]
     rv = Vars()
     rv.enum(FC, -1); rv.rel(FC, FIRED, True); rv.enum(LAST, 0); rv.truth(WINQ)
@@ -356,7 +397,8 @@ def run(ctx: Ctx, tier: str) -> Result:
         res.ok("C04.UNITS", {"window test": WINQ})
     else:
         res.fail(Finding("C04.UNITS", fi.qname, WINQ, fi.loc(), "the window (epoch ms) is tested with `%s`, expected the ns trigger time scaled to ms (ts // 1000000)" % WINQ))
-    per = [n for r in tb.rows for c, _ in r.conds for n in ast.walk(c) if isinstance(n, ast.Compare) and norm(n.left) == ELAPSED]
+    per = [n for r in tb.rows for c in [c_ for c_, _ in r.conds] + ([r.result] if isinstance(r.result, ast.AST) else [])
+           for n in ast.walk(c) if isinstance(n, ast.Compare) and norm(n.left) == ELAPSED]
     need(per, "can_trigger: comparison of elapsed time not found")
     k, rest = const_factor(per[0].comparators[0])
     FP = term(ctx, fi, "self.fire_period")
@@ -379,7 +421,8 @@ def run(ctx: Ctx, tier: str) -> Result:
             res.fail(Finding("C04.UNITS", f.qname, "<location_action.%s(ts)>" % callee, f.loc(), "%s consults LocationAction.%s %d times (expected once): the limits are not %s" % (
                 f.name, callee, len(calls), "checked" if callee == "can_trigger" else "advanced")))
             continue
-        arg = ctx.expand.expand(calls[0].args[0], f) if calls[0].args else []
+        a0_ = call_arg(calls[0], p.func(LA + "." + callee), 1)
+        arg = ctx.expand.expand(a0_, f) if a0_ is not None else []
         if len(arg) == 1 and arg[0].startswith("@self.trigger_context.") and (TS_FIELD is None or TS_FIELD == arg[0]):
             TS_FIELD = arg[0]
             res.ok("C04.UNITS", {"%s(ts)" % callee: arg[0]})
@@ -395,13 +438,13 @@ def run(ctx: Ctx, tier: str) -> Result:
         else:
             res.fail(Finding("C04.UNITS", tc.qname, st[0][1] if st else "<ts>", tc.module.relpath, "trigger timestamp does not originate from time_ns() once per trigger: %s" % srcs))
     rec = p.func(LA + ".record_triggered")
-    fire = p.func(STATS + ".fire")
+    fire = SM["fire"]
     fcalls = [c for c in t.calls_in(rec) if fire in t.resolve_call(c, rec).repo]
     cond_ = [norm(c_) for c_, _pol in paths.conditions(p, fcalls[0], rec)] if len(fcalls) == 1 else []
     if len(fcalls) == 1 and cond_:
         res.fail(Finding("C04.UNITS", rec.qname, fcalls[0], rec.loc(fcalls[0]), "a collection that has happened is recorded only when `%s`: a hit that was collected but not counted "
                          "(two threads recording in the opposite order of their hit times, a clock stepping back) lets the tracepoint collect more than fire_count times" % cond_[0][:60]))
-    elif len(fcalls) == 1 and fcalls[0].args and ctx.expand.expand(fcalls[0].args[0], rec) == [P(rec, 1)]:
+    elif len(fcalls) == 1 and call_arg(fcalls[0], fire, 1) is not None and ctx.expand.expand(call_arg(fcalls[0], fire, 1), rec) == [P(rec, 1)]:
         res.ok("C04.UNITS", {"record_triggered -> fire(ts), unconditionally": True})
     else:
         res.fail(Finding("C04.UNITS", rec.qname, "<fire(ts)>", rec.loc(), "record_triggered does not forward its timestamp to the statistics exactly once"))
@@ -419,7 +462,7 @@ def run(ctx: Ctx, tier: str) -> Result:
         res.fail(Finding("C04.UNITS", fire.qname, "<count += 1; last_fire = ts>", fire.loc(), "fire() does not add exactly one to the counter read by can_trigger and store its timestamp"))
     for cname in (STATS,):
         c = p.cls(cname)
-        extra = [(sf, v) for fld in (cnt_field, last_field) for sf, v, _ in t.field_stores(c, fld) if sf.name not in ("__init__", "fire")]
+        extra = [(sf, v) for fld in (cnt_field, last_field) for sf, v, _ in t.field_stores(c, fld) if sf.name not in ("__init__", fire.name)]
         if extra:
             res.fail(Finding("C04.UNITS", extra[0][0].qname, extra[0][1], extra[0][0].loc(extra[0][1]), "fire statistics are written outside __init__/fire"))
         else:
